@@ -2,6 +2,7 @@ package server
 
 import (
 	"bytes"
+	"strings"
 )
 
 // C16: the messages obtained from a byte stream do not depend on how the stream is cut
@@ -216,4 +217,49 @@ func VH_C16_three_reads() {
 	k1 := 1 + vchoose(len(stream)-2)
 	k2 := k1 + 1 + vchoose(len(stream)-k1-1)
 	vhSplitCheck3(stream, k1, k2)
+}
+
+// VH_C16_burst_through_connection: a pipeline of thousands of commands arriving as one burst whose size lies around
+// the connection's 65535-byte read buffer, served by the REAL connection closure of netServe (its socket buffer,
+// InputStream and PipelineReader together): exactly one reply per command, whatever the burst size, also when
+// the last byte of the burst does not fit into the first read.
+//verif:cfg use=c08 b_burst_bytes=65534..65538_and_131072(symbolic_choice) b_commands=~4680_PINGs(RESP_and_telnet_framing_mixed) ignorego=1 maxsteps=400000000 maxalloc=400000
+func VH_C16_burst_through_connection() {
+	s := vhAckServer()
+	target := [6]int{65534, 65535, 65536, 65537, 65538, 131072}[vchoose(6)]
+	respPing := "*1\r\n$4\r\nPING\r\n" // 14 bytes
+	telPing := "PING\r\n"               // 6 bytes
+	lfPing := "PING\n"                  // 5 bytes (bare LF line end)
+	rest := target
+	n := 0
+	var data []byte
+	if rest%2 == 1 {
+		data = append(data, lfPing...)
+		rest -= 5
+		n++
+	}
+	a := rest / 14
+	for (rest-14*a)%6 != 0 {
+		a--
+	}
+	b := (rest - 14*a) / 6
+	for i := 0; i < a; i++ {
+		data = append(data, respPing...)
+	}
+	for i := 0; i < b; i++ {
+		data = append(data, telPing...)
+	}
+	n += a + b
+	vassert("C16.K3.burst_built", len(data) == target)
+	c := &vhConn{s: s, id: 0, stream: data}
+	vcallAnonOrSkip(s, c)
+	out := strings.Join(c.outs, "")
+	replies := 0
+	for i := 0; i+7 <= len(out); i++ {
+		if out[i] == '+' && out[i:i+7] == "+PONG\r\n" {
+			replies++
+		}
+	}
+	vobs("burst", target, n, replies)
+	vassert("C16.K3.one_reply_per_command_whatever_the_burst_size", replies == n && len(out) == 7*n)
 }
